@@ -2,6 +2,7 @@
 // synthetic bytes through a custom zone_info_source_factory) next to their
 // independent model, and derives anchored probe points.  Includes cctz headers.
 #pragma once
+#include <thread>
 #include <dirent.h>
 #include <sys/stat.h>
 #include <atomic>
@@ -45,6 +46,9 @@ inline std::unique_ptr<cctz::ZoneInfoSource> mem_factory(
   if (name.compare(0, 4, "mem:") == 0) {
     MemStore& s = MemStore::get();
     ++s.opens;
+    // the harness owns this part of the schedule: a "/slow" name keeps its loader inside the (first) load for a
+    // while, so that other threads asking for the same or another name arrive while it is in progress
+    if (name.find("/slow") != std::string::npos) std::this_thread::sleep_for(std::chrono::microseconds(400));
     std::lock_guard<std::mutex> l(s.mu);
     auto it = s.data.find(name);
     if (it == s.data.end()) return nullptr;
